@@ -763,6 +763,20 @@ fn check_sem_case(ctx: &mut Ctx, w: &World, g: &Gen, q: &Q, text: &str) {
 fn lean_opd_tokens(rng: &mut Rng, depth: u32, out: &mut Vec<String>) {
     const VOC: &[&str] = &["a", "b", "abc", "x1", "ANDROID", "ORx", "NOTE", "INDIA", "IN2", "AN", "O", "NO", "42", "Zed", "andor"];
     const PHR: &[&str] = &["a b", "x", "", "it's", "a  b:c", "AND", "(x) +y", " b OR c ", "caf\u{e9} x", "a*", "t~2", "[a TO b]", "IN [a]"];
+    const FLD: &[&str] = &["title", "body", "t", "x1", "INx", "NOTE", "stop", "ANDy", "O"];
+    if rng.chance(1, 5) {
+        let f = crate::model::hex(rng.pick(FLD).as_bytes());
+        if rng.chance(1, 2) {
+            out.push("fw".into());
+            out.push(f);
+            out.push(crate::model::hex(rng.pick(VOC).as_bytes()));
+        } else {
+            out.push("fp".into());
+            out.push(f);
+            out.push(crate::model::hex(rng.pick(PHR).as_bytes()));
+        }
+        return;
+    }
     if rng.chance(1, 5) {
         out.push("p".into());
         out.push(crate::model::hex(rng.pick(PHR).as_bytes()));
